@@ -5,6 +5,7 @@ CONSTRAINT Export
 INVARIANT FineCoding
 INVARIANT WellFormedCases
 INVARIANT ParserAgrees
+INVARIANT MissingIsInvalid
 INVARIANT ImplIffValid
 INVARIANT ImplIsFunction
 INVARIANT ImplValueNormal
